@@ -459,7 +459,7 @@ class ProgGen:
             self.used("literal")
             return "[]"
         name, labels, fs = v[1], v[2], v[3]
-        if name == "Str" and labels == (None,) and fs[0][0] == "b" and rng.random() < 0.7:
+        if name == "Str" and labels == (None,) and len(fs) == 1 and fs[0][0] == "b" and fs[0][1] and all(c in b"abcxyz019" for c in fs[0][1]) and rng.random() < 0.7:
             self.used("string-literal")
             return '"%s"' % fs[0][1].decode()
         k = rng.random()
